@@ -95,7 +95,20 @@ type batchRec struct {
 	entries []ct.LeafEntry
 }
 
-func genFetch(t *rapid.T) Case { return genCase(t, false) }
+func genFetch(t *rapid.T) Case {
+	c := genCase(t, false)
+	// Thorough tier only, rare (a case moves some 60 MB): a log that answers a very large batch in full,
+	// so that one get-entries body read by the real client exceeds 16 MiB (about 2.5 KB of JSON per entry).
+	if harness.Thorough() && weighted(t, "bigBody", 2999, 1) == 1 {
+		n := rapid.Int64Range(7000, 7600).Draw(t, "bigBodySize")
+		c = Case{
+			Init: n, Batch: int(n) + rapid.IntRange(0, 3000).Draw(t, "bigBodyBatchExtra"), Fetchers: rapid.IntRange(1, 2).Draw(t, "bigBodyFetchers"),
+			Plans: []Plan{{LatMs: rapid.Int64Range(0, 50).Draw(t, "bigBodyLat")}}, CbLatMs: []int64{0}, Route: routeHTTP,
+			PoolSeed: c.PoolSeed, PoolStride: c.PoolStride,
+		}
+	}
+	return c
+}
 
 func checkFetch(t *testing.T, c Case) (v harness.Verdict) {
 	c.normalise()
@@ -108,7 +121,7 @@ func checkFetch(t *testing.T, c Case) (v harness.Verdict) {
 		for _, w := range c.Warm {
 			warm = append(warm, runWarm(w, log))
 		}
-		fe := scanner.NewFetcher(f, fetcherOptions(&c))
+		fe := scanner.NewFetcher(clientFor(&c, f), fetcherOptions(&c))
 		run := func(ctx context.Context) error {
 			return fe.Run(ctx, func(b scanner.EntryBatch) {
 				ph := int(st.phase.Load())
@@ -288,6 +301,14 @@ func classify(c *Case, outs []*outcome, v *harness.Verdict) {
 	}
 	if c.PreStop {
 		v.Class("reuse:stop-before-first-run")
+	}
+	if c.Route == routeHTTP {
+		v.Class("route:real-client-over-http")
+		if f.maxBody > 16<<20 {
+			v.Class("route:get-entries-body>16MiB")
+		}
+	} else {
+		v.Class("route:interface")
 	}
 	if c.Defaults {
 		v.Class("options:from-package-defaults", fmt.Sprintf("options:earlier-default-fetches=%d", len(c.Warm)))
